@@ -106,6 +106,15 @@ def check_rej(case):
         out = call(build.permeance(case["value"], frm).convert, to, None)
         if not is_raised(out):
             raise Violation("convert %s->%s without a component returned %r instead of raising" % (frm, to, out))
+        # the same for a Permeance that is itself the result of an earlier conversion WITH a component
+        comp = build.component({"builtin": "EtOH"})
+        src = "SI" if frm == kg else kg
+        derived = call(build.permeance(case["value"], src).convert, frm, comp)
+        if not is_raised(derived):
+            out = call(derived.convert, to, None)
+            if not is_raised(out):
+                raise Violation("a permeance obtained by conversion (%s->%s with a component) converted %s->%s without a component returned %r "
+                                "instead of raising" % (src, frm, frm, to, out))
         return {"nontrivial": True, "classes": ["no-component:%s" % case["kg_side"]]}
     if kind == "unknown-unit":
         comp = None if case["component"] is None else build.component(case["component"])
